@@ -15,6 +15,7 @@
     in a context supplied from outside.
 -/
 import TwigProofs.Lemmas.Lift
+import TwigProofs.C13
 namespace Twig
 open Lift
 
@@ -145,6 +146,36 @@ theorem C04_comment_inert_render (a c : Bytes) (ps : List (Bytes × STag)) (last
       | error e => rfl
       | ok r => simp
 
+/-! ## C04 — verbatim bodies are inert -/
+
+/-- the renderer emits a verbatim node's bytes without consulting the context (or anything else) -/
+theorem C04_verbatim_node_render (E : Env) (go : Go) (tpl s : Bytes) (st : St) :
+    renderNode E go tpl (.verbatim s) st = .ok (s, st) := rfl
+
+/-- Parsing has no context argument, so a template whose parse consists of text and verbatim nodes only
+    (`onlyTV`, decidable on the parser's result) renders to the same bytes — the concatenation of the node
+    contents, computed from tokens alone — under EVERY context: nothing is evaluated, no context data can appear. -/
+theorem C04_verbatim_inert_render (src : Bytes) (nodes : List Node) (hp : parseTemplate src = .ok nodes)
+    (h : onlyTV nodes = true) (vars₁ vars₂ : List (Bytes × Val)) :
+    renderSrc src vars₁ = renderSrc src vars₂ ∧ renderSrc src vars₁ = .ok (tvBytes nodes) := by
+  have : ∀ vars, renderSrc src vars = .ok (tvBytes nodes) := by
+    intro vars
+    unfold renderSrc
+    rw [hp]
+    exact renderNodesTop_onlyTV nodes h vars
+  exact ⟨(this vars₁).trans (this vars₂).symm, this vars₁⟩
+
+/-- the shape `l₁ {% verbatim %} body {% endverbatim %} l₂` with literal chunks: the output is
+    `l₁ ++ body ++ l₂` for every context -/
+theorem C04_verbatim_literal_render (l1 body l2 : Bytes) (vars : List (Bytes × Val))
+    (h1 : Lit l1) (hb : Lit body) (h2 : NoOpener l2) :
+    renderSrc (l1 ++ b "{% verbatim %}" ++ (body ++ b "{% endverbatim %}" ++ l2)) vars = .ok (l1 ++ body ++ l2) := by
+  have hp := parseTemplate_verbatim l1 body l2 h1 hb h2
+  have htv : onlyTV ((if l1 = [] then [] else [.text l1]) ++ .verbatim body :: (if l2 = [] then [] else [.text l2])) = true := by
+    by_cases a1 : l1 = [] <;> by_cases a2 : l2 = [] <;> simp [a1, a2, onlyTV, tvPieces]
+  rw [(C04_verbatim_inert_render _ _ hp htv vars vars).2]
+  by_cases a1 : l1 = [] <;> by_cases a2 : l2 = [] <;> simp [a1, a2, tvBytes]
+
 /-! ## C14 — the tokenizer switch is unobservable in rendered output -/
 
 /-- the rendered result (output or error) is the same whichever of the two tokenizers reads the template -/
@@ -162,6 +193,106 @@ theorem C14_threshold_render (s : Bytes) (vars : List (Bytes × Val)) :
     unfold renderSrcWith parseTemplateWith tokenizeWith
     rw [scan_eq_scanOpt]
   exact ⟨h.trans (C14_scanners_agree_render s vars), h⟩
+
+/-! ## C14 — literal padding changes the output only by that text -/
+
+/-- Parse level, every template: literal padding `p` in front of a template that begins with a tag (or is
+    empty) adds one text node in front and changes nothing else in the tree.  The node holds `p` — without its
+    trailing whitespace if that first tag has a dashed opener (`dashedStart`, the C13 exception).
+    `parseTemplate s ≠ .error .fuel`: the model's parser fuel `4·|tokens|+16` sufficed for `s` (the padded template
+    gets more fuel; `parseOuter_mono` shows more fuel never changes a result). -/
+theorem C14_padding_parse {p : Bytes} (hp : Lit p) (hne : p ≠ []) {s : Bytes} (hs : TagOrEnd s)
+    (hfuel : parseTemplate s ≠ .error .fuel) :
+    parseTemplate (p ++ s) = mapNodes (fun ns => .text (rtIf (dashedStart s) p) :: ns) (parseTemplate s) :=
+  parseTemplate_pad hp hne hs hfuel
+
+/-- Rendered output: the padded template renders to the padding followed by the output of the unpadded
+    template (same error if that fails).  `NXL`: the template contains no `extends` / `include` / `import` / `from`
+    (with a single template in the engine these could only reach the template itself, and a template that includes
+    itself emits the padding once per inclusion). Blocks, macros and their calls, `parent()`, loops, conditions,
+    `set`, `apply` are all covered. -/
+theorem C14_padding_render {p : Bytes} (hp : Lit p) (hne : p ≠ []) {s : Bytes} (hs : TagOrEnd s)
+    (vars : List (Bytes × Val)) (hfuel : parseTemplate s ≠ .error .fuel)
+    (hnx : ∀ nodes, parseTemplate s = .ok nodes → NXL nodes = true) :
+    renderSrc (p ++ s) vars = (renderSrc s vars >>= fun o => pure (rtIf (dashedStart s) p ++ o)) := by
+  unfold renderSrc
+  rw [parseTemplate_pad hp hne hs hfuel]
+  cases hps : parseTemplate s with
+  | error e => rfl
+  | ok nodes => exact renderNodesTop_text _ nodes (hnx nodes hps) vars
+
+/-- …in particular exactly `p` when the template does not begin with a dashed opener -/
+theorem C14_padding_render_undashed {p : Bytes} (hp : Lit p) (hne : p ≠ []) {s : Bytes} (hs : TagOrEnd s)
+    (hd : dashedStart s = false) (vars : List (Bytes × Val)) (hfuel : parseTemplate s ≠ .error .fuel)
+    (hnx : ∀ nodes, parseTemplate s = .ok nodes → NXL nodes = true) :
+    renderSrc (p ++ s) vars = (renderSrc s vars >>= fun o => pure (p ++ o)) := by
+  rw [C14_padding_render hp hne hs vars hfuel hnx, hd]; rfl
+
+theorem interleaveOut_append (vars : List (Bytes × Val)) (last : Bytes) : ∀ (ps1 ps2 : List (Bytes × STag)),
+    interleaveOut vars (ps1 ++ ps2) last =
+      (interleaveOut vars ps1 [] >>= fun a => interleaveOut vars ps2 last >>= fun c => .ok (a ++ c))
+  | [], ps2 => by cases h : interleaveOut vars ps2 last <;> simp [interleaveOut, h]
+  | (l, s) :: ps1, ps2 => by
+    simp only [List.cons_append, interleaveOut, interleaveOut_append vars last ps1 ps2]
+    cases s.value vars with
+    | error e => rfl
+    | ok v =>
+      simp only [ok_bind]
+      cases interleaveOut vars ps1 [] with
+      | error e => rfl
+      | ok a =>
+        simp only [ok_bind]
+        cases interleaveOut vars ps2 last <;> simp
+
+/-- Padding between constructs and at the end (fragment: comments and undashed prints of variables): growing
+    the chunk before the k-th tag by `p` — or the final chunk — inserts exactly `p` at that place of the output
+    (`A ++ B` becomes `A ++ p ++ B`); a failing render fails identically. -/
+theorem C14_padding_middle_render (ps1 ps2 : List (Bytes × STag)) (l p : Bytes) (s : STag) (last : Bytes)
+    (vars : List (Bytes × Val))
+    (h1 : ∀ lt ∈ ps1 ++ (l, s) :: ps2, Lit lt.1 ∧ WfTag lt.2.tag ∧ lt.2.ok = true ∧ lt.2.noDash = true)
+    (hlp : Lit (l ++ p)) (hlast : NoOpener last) (hv : PlainVars vars = true) :
+    (∀ out, renderSrc (spell (tagsOf (ps1 ++ (l, s) :: ps2)) last) vars = .ok out →
+      ∃ A B, out = A ++ B ∧ renderSrc (spell (tagsOf (ps1 ++ (l ++ p, s) :: ps2)) last) vars = .ok (A ++ p ++ B)) ∧
+    (∀ e, renderSrc (spell (tagsOf (ps1 ++ (l, s) :: ps2)) last) vars = .error e →
+      renderSrc (spell (tagsOf (ps1 ++ (l ++ p, s) :: ps2)) last) vars = .error e) := by
+  have hs := h1 (l, s) (by simp)
+  have h2 : ∀ lt ∈ ps1 ++ (l ++ p, s) :: ps2, Lit lt.1 ∧ WfTag lt.2.tag ∧ lt.2.ok = true ∧ lt.2.noDash = true := by
+    intro lt hm
+    simp only [List.mem_append, List.mem_cons] at hm
+    rcases hm with hm | rfl | hm
+    · exact h1 lt (by simp [hm])
+    · exact ⟨hlp, hs.2⟩
+    · exact h1 lt (by simp [hm])
+  rw [C04_output_render_plainVars _ last vars h1 hlast hv, C04_output_render_plainVars _ last vars h2 hlast hv,
+    interleaveOut_append, interleaveOut_append]
+  simp only [interleaveOut]
+  cases interleaveOut vars ps1 [] with
+  | error e => exact ⟨fun out h => (by cases h), fun e' h => h⟩
+  | ok a =>
+    cases s.value vars with
+    | error e => exact ⟨fun out h => (by cases h), fun e' h => h⟩
+    | ok v =>
+      cases interleaveOut vars ps2 last with
+      | error e => exact ⟨fun out h => (by cases h), fun e' h => h⟩
+      | ok r =>
+        refine ⟨fun out h => ⟨a ++ l, v ++ r, ?_, ?_⟩, fun e' h => by cases h⟩
+        · simp only [ok_bind, Except.ok.injEq] at h; rw [← h]; simp
+        · simp
+
+theorem C14_padding_end_render (ps : List (Bytes × STag)) (last p : Bytes) (vars : List (Bytes × Val))
+    (h : ∀ lt ∈ ps, Lit lt.1 ∧ WfTag lt.2.tag ∧ lt.2.ok = true ∧ lt.2.noDash = true)
+    (hlast : NoOpener last) (hlp : NoOpener (last ++ p)) (hv : PlainVars vars = true) :
+    renderSrc (spell (tagsOf ps) (last ++ p)) vars =
+      (renderSrc (spell (tagsOf ps) last) vars >>= fun o => pure (o ++ p)) := by
+  rw [C04_output_render_plainVars ps _ vars h hlp hv, C04_output_render_plainVars ps _ vars h hlast hv]
+  have := interleaveOut_append vars (last ++ p) ps []
+  rw [List.append_nil] at this
+  rw [this]
+  have := interleaveOut_append vars last ps []
+  rw [List.append_nil] at this
+  rw [this]
+  simp only [interleaveOut]
+  cases interleaveOut vars ps [] <;> simp
 
 /-! ## C13 — dashes, on rendered output (fragment: comments and prints of variables) -/
 
@@ -188,7 +319,7 @@ theorem undashS_mem : ∀ (tn : Bool) (ps : List (Bytes × STag)), ∀ lt ∈ un
     the template with dashes renders exactly like the hand-trimmed dash-free template — same output or same
     error.  Hypotheses as in `C13_commutes`: tags well-formed with and without their dashes, the *trimmed*
     chunks literal. -/
-theorem C13_commutes_render_partial (ps : List (Bytes × STag)) (last : Bytes) (vars : List (Bytes × Val))
+theorem C13_commutes_render_fragment_partial (ps : List (Bytes × STag)) (last : Bytes) (vars : List (Bytes × Val))
     (hwf : ∀ lt ∈ ps, WfTag lt.2.tag ∧ WfTag lt.2.tag.plain ∧ lt.2.ok = true)
     (hlit : ∀ lt ∈ undashPairs false (tagsOf ps), Lit lt.1)
     (hlast : NoOpener (undashLast false (tagsOf ps) last))
@@ -212,6 +343,26 @@ theorem C13_commutes_render_partial (ps : List (Bytes × STag)) (last : Bytes) (
     exact ⟨lt, hm, rfl⟩
   · rw [e, plain_tag]; exact (hwf x hx).2.1
   · rw [e, plain_ok]; exact (hwf x hx).2.2
+
+/-- C13 on rendered output for ALL tag kinds (prints of arbitrary expressions, `if`/`elseif`/`else`/`endif`,
+    `for`, `block`, `set`, `macro`, … opening, middle and closing tags, every subset of dashes), when trimming
+    does not reduce a non-empty chunk to nothing (`Kept`, decidable): the parser then sees for the dashed template
+    literally the token stream of the hand-trimmed dash-free template, so parsing (success or the same error) and
+    rendering under every context coincide.  The complementary case (a whitespace-only chunk next to a dash) leaves
+    an empty TEXT token in the stream; it is covered for the fragment by `C13_commutes_render_fragment_partial`. -/
+theorem C13_commutes_render_kept_partial (ps : List (Bytes × Tag)) (last : Bytes) (vars : List (Bytes × Val))
+    (hwf : ∀ lt ∈ ps, WfTag lt.2 ∧ WfTag lt.2.plain)
+    (hlit : ∀ lt ∈ undashPairs false ps, Lit lt.1)
+    (hlast : NoOpener (undashLast false ps last)) (hk : Kept false ps last) :
+    tokenize (spell ps last) = tokenize (spell (undashPairs false ps) (undashLast false ps last)) ∧
+    parseTemplate (spell ps last) = parseTemplate (spell (undashPairs false ps) (undashLast false ps last)) ∧
+    renderSrc (spell ps last) vars = renderSrc (spell (undashPairs false ps) (undashLast false ps last)) vars := by
+  obtain ⟨h1, h2⟩ := tokenize_undash ps last hwf hlit hlast hk
+  have ht : tokenize (spell ps last) = tokenize (spell (undashPairs false ps) (undashLast false ps last)) :=
+    h1.trans h2.symm
+  have hp : parseTemplate (spell ps last) = parseTemplate (spell (undashPairs false ps) (undashLast false ps last)) := by
+    unfold parseTemplate; rw [ht]
+  exact ⟨ht, hp, by unfold renderSrc; rw [hp]⟩
 
 /-! ## non-vacuity and concrete instances (kernel evaluation of the whole pipeline) -/
 
@@ -265,5 +416,30 @@ example : renderSrc (b "<li> \n{{- i -}} \t </li> {#-#}  {{-j }} end") [(b "i", 
 -- C14: both tokenizers on a concrete template
 example : renderSrcWith scanOpt (b "a{{ x -}} b") [(b "x", .int 3)] = .ok (b "a3b") := isOk_eq (by decide +kernel)
 example : renderSrcWith scanHtml (b "a{{ x -}} b") [(b "x", .int 3)] = .ok (b "a3b") := isOk_eq (by decide +kernel)
+
+-- verbatim: a body containing tags is never evaluated (the parse has only text/verbatim nodes)
+example : ∃ nodes, parseTemplate (b "a{% verbatim %}{{ secret }}{% if %}{% endverbatim %}b") = .ok nodes ∧
+    onlyTV nodes = true ∧ tvBytes nodes = b "a{{secret}}{%if %}b" :=
+  ⟨[.text (b "a"), .verbatim (b "{{secret}}{%if %}"), .text (b "b")], by with_unfolding_all rfl, by decide +kernel,
+    by decide +kernel⟩
+example : Lit (b "<pre>") ∧ Lit (b "{ x } 100%") ∧ NoOpener (b "</pre>") := by decide +kernel
+
+-- C14_padding_render: a template with a block, a loop and a macro call; padding in front
+example : Lit (b "<!-- pad { } % -->\n") ∧ TagOrEnd (b "{% for i in xs %}{{ i }},{% endfor %}") ∧
+    dashedStart (b "{% for i in xs %}{{ i }},{% endfor %}") = false := by decide +kernel
+example : ∃ nodes, parseTemplate (b "{% for i in xs %}{{ i }},{% endfor %}") = .ok nodes ∧ NXL nodes = true :=
+  ⟨[.forN none (b "i") (.var (b "xs")) [.print (.var (b "i")), .text (b ",")] []], by with_unfolding_all rfl, by decide +kernel⟩
+example : renderSrc (b "<!-- pad -->{% for i in xs %}{{ i }},{% endfor %}") [(b "xs", .list [.int 1, .int 2])] =
+    .ok (b "<!-- pad -->1,2,") := isOk_eq (by decide +kernel)
+-- the exclusion is real: a template that includes itself emits the padding at every level
+theorem C14_padding_self_include_counterexample :
+    renderSrc (b "{% if n %}{% include 'main' with {'n': 0} %}{% endif %}x") [(b "n", .int 1)] = .ok (b "xx") ∧
+    renderSrc (b "p" ++ b "{% if n %}{% include 'main' with {'n': 0} %}{% endif %}x") [(b "n", .int 1)] = .ok (b "ppxx") :=
+  ⟨isOk_eq (by decide +kernel), isOk_eq (by decide +kernel)⟩
+
+-- C13_commutes_render_kept_partial: `c13Sample` of TwigProofs/C13.lean (a `for` block, three dashed delimiters)
+example : (∀ lt ∈ c13Sample, WfTag lt.2 ∧ WfTag lt.2.plain) ∧ (∀ lt ∈ undashPairs false c13Sample, Lit lt.1) ∧
+    NoOpener (undashLast false c13Sample (b "  </li>\n")) ∧ Kept false c13Sample (b "  </li>\n") := by
+  decide +kernel
 
 end Twig
